@@ -8,7 +8,7 @@ ALL = [f'C{i:02d}' for i in range(1, 21)]
 TB_SEM = 'Trusted base: vlib/ref/sem.py (reference semantics transcribed from the literature / documentation prose, algebraically self-tested) and vlib/ref/syn.py.'
 CHECKS = {
  'C01': dict(
-    technique='runtime monitoring: every VALID verdict of the real prover on generated/hostile workloads attacked by a bounded countermodel search in an independent reference semantics; culprit rule located by an online shadow-model invariant over the step history',
+    technique='runtime monitoring: every VALID verdict of the real prover on generated/hostile workloads attacked by a bounded countermodel search (frames up to three worlds, identity partitions per world) in an independent reference semantics; culprit rule located by an online shadow-model invariant over the step history',
     text='Exploration: thousands of real proofs per logic (all 57) under rotating option combos, build/step drivers and tie-break order seeds; a VALID verdict is refuted iff a re-verified reference countermodel exists within the search bound.',
     note=TB_SEM + ' Countermodel search is bounded; surviving VALID verdicts are "not refuted within the bound".', design='4/C01'),
  'C02': dict(
@@ -20,7 +20,7 @@ CHECKS = {
     text='Exploration, partly exhaustive (all arguments with <=1 premise and <=1 connective per sentence in all 57 logics in the thorough tier).',
     note=TB_SEM + ' A loop-free proof longer than the monitoring cap is inconclusive, not a violation.', design='4/C03'),
  'C04': dict(
-    technique='runtime monitoring: each compound node shape expanded by the real rule (isolated on a real Tableau), resulting branches compared with the reference semantics over ALL small interpretations; frame rules run on all 512 access relations over 3 worlds',
+    technique='runtime monitoring: each compound node shape expanded by the real rule (isolated on a real Tableau), resulting branches compared with the reference semantics over ALL small interpretations; frame rules run on all 512 access relations over 3 worlds; in-situ units check the world discipline of every step of real proofs (a cross-world addition needs a modal target and an access node on that branch)',
     text='Exhaustive exploration of a finite space: 57 logics x every node shape x all value assignments / small domains / small frames.',
     note=TB_SEM + ' Components are atoms / monadic predications; exactness for arbitrary components follows from compositionality of the reference.', design='4/C04'),
  'C05': dict(
@@ -44,7 +44,7 @@ CHECKS = {
     text='Exploration (exhaustive for strings of length <= 3 over the alphabet plus foreign characters).',
     note='Non-termination is restated as an operation budget 50(n+1)^2+1000 function entries in parsing.py; wall-clock watchdog firings are inconclusive.', design='4/C13'),
  'C18': dict(
-    technique='runtime monitoring: operation sequences on the real containers checked after every operation against a list-without-duplicates model (permitted-outcome oracle) and an icontract class invariant',
+    technique='runtime monitoring: operation sequences on the real containers checked after every operation against a list-without-duplicates model (permitted-outcome oracle) and an icontract class invariant; long-container units (5-10 members) compare every index/slice observation with a plain list',
     text='Exploration: exhaustive short operation sequences (modulo hidden-state equivalence beyond depth 2) + random sequences to depth 60 for qset, linqset, Predicates.',
     note='Trusted base: vlib/ref/seqmodel.py.', design='4/C18'),
 }
@@ -56,7 +56,7 @@ CHECKS.update({
     text='Exploration: all histories of <= 4 (thorough 5) operations over a 14-symbol alphabet incl. copies, random histories to depth 40, and first-order/modal proofs in every quantified/modal logic with the contracts riding along.',
     note='Freshness is recomputed from node mappings (REF-SYN constants; world keys); contracts run in record mode inside proofs.', design='4/C06'),
  'C08': dict(
-    technique='runtime monitoring: models assembled through the public model API, value_of compared with the reference evaluator on the finished model data; frame closure, classical identity/existence invariants and insertion-order independence checked',
+    technique='runtime monitoring: models assembled through the public model API, value_of compared with the reference evaluator on the finished model data; frame closure, classical identity/existence invariants and insertion-order independence checked; mixed-logic units evaluate models of many logics in one process',
     text='Exploration over random small models (worlds <= 3, constants <= 3) x seeded sentences in all 57 logics.',
     note=TB_SEM, design='4/C08'),
  'C10': dict(
@@ -86,7 +86,7 @@ CHECKS.update({
     text='Exploration: thousands of finished tableaux per run in all 57 logics (valid, invalid, premature, quit-flag nests, documentation tableaux with ellipsis nodes) x 88 writer configurations.',
     note='Necessary-condition oracle for the text rendering (never stricter than the statement); the unregistered WIP doctree text writer is outside the quantifier.', design='4/C19'),
  'C20': dict(
-    technique='runtime monitoring: get_data() of branch models and directly built models compared with value_of(), frames and R',
+    technique='runtime monitoring: get_data() of branch models and directly built models compared with value_of(), frames and R; mixed-logic units export models of many logics in one process in seeded orders',
     text='Exploration over thousands of models per logic.', note='Relative to the library evaluator (C08 checks the evaluator).', design='4/C20'),
 })
 
